@@ -2,6 +2,7 @@ import Nstd.Seq.LemmasStep
 import Nstd.Seq.LemmasNodes
 import Nstd.Seq.LemmasPtrSort
 import Nstd.Seq.LemmasRaw
+import Nstd.Seq.LemmasPtrSwap
 import Nstd.Generated.SeqConst
 /-
   Property C03: List, Array and PoolList hold exactly the reference sequence; List::sort leaves an
@@ -308,6 +309,21 @@ theorem ptr_sort (p : Ptr.PList) (xs fs : List Nat) (s : LState) (h : Ptr.Rep p 
     ← Ptr.vals_of_view p xs s.vals (Ptr.view_of_rep p xs fs s h)]
   exact f2
 
+/-- `List::swap` / `PoolList::swap` with both lists in ONE shared heap (distinct sentinel addresses `eA ≠ eB`,
+    disjoint chains, PtrSwap.lean): after `A.swap(B)` the object `A` owns exactly the chain and the free list that `B`
+    owned and vice versa — the last item of each chain now points to the sentinel of its new owner, the first has a
+    null `prev`, `_begin`, `_size`, `freeItem` and `blocks` are exchanged — and no item was copied, moved or
+    modified (`val` untouched, same addresses in the same order).  For all heaps, chains and free lists. -/
+theorem ptr_swap (H : Ptr2.Heap) (eA eB : Nat) (A B : Ptr2.Hdr) (xsA fsA xsB fsB : List Nat)
+    (hne : eA ≠ eB) (nd : (xsA ++ xsB).Nodup)
+    (hs : ∀ x ∈ xsA ++ fsA ++ xsB ++ fsB, x ≠ eA ∧ x ≠ eB)
+    (ha : Ptr2.RepE H A eA xsA fsA) (hb : Ptr2.RepE H B eB xsB fsB) :
+    Ptr2.RepE (Ptr2.swap H eA eB A B).1 (Ptr2.swap H eA eB A B).2.1 eA xsB fsB ∧
+    Ptr2.RepE (Ptr2.swap H eA eB A B).1 (Ptr2.swap H eA eB A B).2.2 eB xsA fsA ∧
+    (Ptr2.swap H eA eB A B).1.val = H.val ∧
+    (Ptr2.swap H eA eB A B).2.1.blocks = B.blocks ∧ (Ptr2.swap H eA eB A B).2.2.blocks = A.blocks :=
+  Ptr2.swap_rep H eA eB A B xsA fsA xsB fsB hne nd hs ha hb
+
 /-- what `Rep` means for a client: iterating from `begin()` with `++` visits, for every position `k`, an item
     holding the model's `k`-th value, and reaches `end()` after `size` steps -/
 theorem ptr_iteration (p : Ptr.PList) (xs fs : List Nat) (s : LState) (h : Ptr.Rep p xs fs s) :
@@ -481,5 +497,21 @@ example :
       = some [some 1, some 3, none, none, none, none, none] ∧
     (Raw.rrun {} [.aappend 0 1, .aappend 0 2, .aappend 0 3, .aappend 0 4, .aremove 0 1, .aresize 0 2 0, .acopy 1]).a1.cells
       = some [some 1, some 3, none, none, none, none, none] := by decide
+
+/-- the shared-heap swap on a concrete heap: A = [2, 3] (sentinel 0), B = [4] (sentinel 1) -/
+def demoHeap : Ptr2.Heap :=
+  { val := fun k => (k : Int),
+    prev := fun k => if k = 3 then some 2 else if k = 0 then some 3 else if k = 1 then some 4 else none,
+    next := fun k => if k = 2 then some 3 else if k = 3 then some 0 else if k = 4 then some 1 else none }
+
+example :
+    let r := Ptr2.swap demoHeap 0 1 ⟨2, 2, none, 7⟩ ⟨4, 1, none, 9⟩
+    r.1.next 3 = some 1 ∧ r.1.next 4 = some 0 ∧ r.1.prev 0 = some 4 ∧ r.1.prev 1 = some 3 ∧
+    r.2.1.begin = 4 ∧ r.2.1.size = 1 ∧ r.2.1.blocks = 9 ∧ r.2.2.begin = 2 ∧ r.2.2.size = 2 ∧ r.2.2.blocks = 7 := by
+  decide
+
+example : Ptr2.RepE demoHeap ⟨2, 2, none, 7⟩ 0 [2, 3] [] ∧ Ptr2.RepE demoHeap ⟨4, 1, none, 9⟩ 1 [4] [] :=
+  ⟨⟨by simp [Ptr2.SegE, demoHeap], by simp [demoHeap, Ptr.lastOr], rfl, rfl, rfl⟩,
+   ⟨by simp [Ptr2.SegE, demoHeap], by simp [demoHeap, Ptr.lastOr], rfl, rfl, rfl⟩⟩
 
 end Nstd.Seq
